@@ -59,9 +59,9 @@ def configs(tier):
     for integ in INTEGS:
         if integ in IMPL:
             # concrete distinct volumes keep the query linear (quick); symbolic volumes in the thorough tier
-            out.append({'level': 'integrator', 'integrator': integ, 'n': 3, 'vol': ['1', '2', '1/2']})
+            out.append({'level': 'integrator', 'integrator': integ, 'n': 3, 'vol': ['1', '2', '1/2'], 'explore': True})
             if tier != 'quick':
-                out.append({'level': 'integrator', 'integrator': integ, 'n': 3, 'timeout_ms': 600000})
+                out.append({'level': 'integrator', 'integrator': integ, 'n': 3, 'timeout_ms': 600000, 'explore': True})
         else:
             out.append({'level': 'integrator', 'integrator': integ, 'n': 3})
     return out
